@@ -490,7 +490,8 @@ def run_check(prop, tier, seed, replay, skip_coq=False):
     if driver is None:
         v.violation("the executable model does not build", {"kind": "model-build", "log": dlog[-3000:]}, False)
         return finish(v, coq, tstatus, "make props/%s.vo" % prop)
-    ctx = props.Ctx(v, driver, tier, seed)
+    tok = all(st.get("ok", True) for st in tstatus.values() if isinstance(st, dict)) and "_error" not in tstatus
+    ctx = props.Ctx(v, driver, tier, seed, translator_ok=tok)
     props.REGISTRY[prop](ctx)
     # --- verdict for the Coq side (a broken proof is reported after the search for an input)
     refused = [k for k, s in tstatus.items() if isinstance(s, dict) and not s.get("ok", True)]
